@@ -151,8 +151,9 @@ def run_property(pid, tier, rule_fns, level, explanation, configs_quick, configs
     for rname, e in per_rule.items():
         for s in e["samples"][:3]:
             samples.append({"rule": rname, "instance": s})
-    nfn = {cfg: len(p.fns) for cfg, p in progs.items()}
-    ncalls = {cfg: sum(len(f.calls) for f in p.fns.values()) for cfg, p in progs.items()} if tier == "thorough" else None
+    loaded = progs.loaded() if hasattr(progs, "loaded") else dict(progs.items())
+    nfn = {cfg: len(p.fns) for cfg, p in loaded.items()}
+    ncalls = {cfg: sum(len(f.calls) for f in p.fns.values()) for cfg, p in loaded.items()} if tier == "thorough" else None
     cov = {
         "explanation": explanation,
         "evaluations": max(obligations, 1),
@@ -169,6 +170,7 @@ def run_property(pid, tier, rule_fns, level, explanation, configs_quick, configs
             "rule implementations under /verif/rules and their hand-confirmed instance tables",
         ],
         "configurations": configs,
+        "configurations_parsed": sorted(loaded),
         "functions_analysed": nfn,
         "tree_hash": th,
         "per_rule": per_rule,
